@@ -155,6 +155,214 @@ def lin_eval(n, x, leaf_txt):
     return x
 
 
+
+class _PadUnknown(Exception):
+    pass
+
+
+class _PadOOB(Exception):
+    pass
+
+
+_PADNAME = {"D": "a message byte", "S": "a stale byte of an earlier block", "P": "0x80", "Z": "0x00",
+            "L": "part of the length field", "X": "an unknown value"}
+
+
+def _sha_finish_blocks(fin, p0):
+    """Concrete evaluation of lzma_sha256_finish() with size = p0 (mod 64) over an abstract 64-cell buffer; returns the
+    buffer contents at each process() call."""
+    env = {}
+    buf = ["D"] * p0 + ["S"] * (64 - p0)
+    out = []
+    SIZE = p0 + 64 * 5
+
+    def is_buf(n, member):
+        n = ex.strip(n)
+        return n is not None and n.get("k") == "mem" and n.get("f") == member and ex.show(n).endswith("buffer." + member)
+
+    def ev(n):
+        n = ex.strip(n)
+        if n is None:
+            raise _PadUnknown("empty expression")
+        k = n.get("k")
+        if k == "const":
+            return n["v"]
+        if k == "paren":
+            return ev(n["e"])
+        if k == "var":
+            if n["n"] in env:
+                return env[n["n"]]
+            raise _PadUnknown("value of `%s`" % n["n"])
+        if k == "mem":
+            if ex.show(n).endswith("sha256.size"):
+                return SIZE
+            raise _PadUnknown("value of `%s`" % ex.show(n))
+        if k == "un":
+            op = n["op"]
+            if op in ("post++", "post--", "pre++", "pre--", "++", "--"):
+                tgt = ex.strip(n["e"])
+                if tgt.get("k") != "var":
+                    raise _PadUnknown(ex.show(n))
+                old = ev(tgt)
+                new_ = old + (1 if "++" in op else -1)
+                env[tgt["n"]] = new_
+                return old if op.startswith("post") else new_
+            v = ev(n["e"])
+            if op == "-":
+                return -v
+            if op == "!":
+                return int(not v)
+            if op == "~":
+                return ~v
+            if op == "+":
+                return v
+            raise _PadUnknown(ex.show(n))
+        if k == "bin":
+            op = n["op"]
+            if op == "&&":
+                return int(bool(ev(n["l"])) and bool(ev(n["r"])))
+            if op == "||":
+                return int(bool(ev(n["l"])) or bool(ev(n["r"])))
+            a, b = ev(n["l"]), ev(n["r"])
+            try:
+                return {"+": lambda: a + b, "-": lambda: a - b, "*": lambda: a * b, "/": lambda: a // b,
+                        "%": lambda: a % b, "&": lambda: a & b, "|": lambda: a | b, "^": lambda: a ^ b,
+                        "<<": lambda: a << b, ">>": lambda: a >> b, "==": lambda: int(a == b),
+                        "!=": lambda: int(a != b), "<": lambda: int(a < b), "<=": lambda: int(a <= b),
+                        ">": lambda: int(a > b), ">=": lambda: int(a >= b)}[op]()
+            except (KeyError, ZeroDivisionError):
+                raise _PadUnknown(ex.show(n))
+        if k == "cond":
+            return ev(n["t_"]) if ev(n["c"]) else ev(n["f_"])
+        raise _PadUnknown(ex.show(n))
+
+    def bufptr(n):
+        """offset into buffer.u8 designated by a pointer expression, or None"""
+        n = ex.strip(n)
+        if n is None:
+            return None
+        if is_buf(n, "u8"):
+            return 0
+        if n.get("k") == "bin" and n["op"] in ("+", "-"):
+            o = bufptr(n["l"])
+            if o is not None:
+                return o + ev(n["r"]) * (1 if n["op"] == "+" else -1)
+            if n["op"] == "+":
+                o = bufptr(n["r"])
+                if o is not None:
+                    return o + ev(n["l"])
+            return None
+        if n.get("k") == "un" and n["op"] == "&":
+            t = ex.strip(n["e"])
+            if t is not None and t.get("k") == "idx" and is_buf(t["b"], "u8"):
+                return ev(t["i"])
+        return None
+
+    def cell(v):
+        return {128: "P", 0: "Z"}.get(v, "X")
+
+    def store(lo, n_, val):
+        if n_ < 0 or lo < 0 or lo + n_ > 64:
+            raise _PadOOB("a store of %s bytes at offset %d of check->buffer leaves the 64-byte block" % (
+                n_ if n_ >= 0 else "%d (as size_t: 2^64%d)" % (n_, n_), lo))
+        for j in range(lo, lo + n_):
+            buf[j] = val
+
+    def do(e):
+        e = ex.deref(e)
+        k = e.get("k")
+        if k == "decl":
+            if e.get("init") is not None:
+                try:
+                    env[e["n"]] = ev(e["init"])
+                except _PadUnknown:
+                    env.pop(e["n"], None)
+            return
+        if k == "asg":
+            l = ex.strip(e["l"])
+            op = e["op"]
+            if l.get("k") == "var":
+                try:
+                    r = ev(e["r"])
+                    if op == "=":
+                        env[l["n"]] = r
+                    elif op == "+=":
+                        env[l["n"]] = ev(l) + r
+                    elif op == "-=":
+                        env[l["n"]] = ev(l) - r
+                    else:
+                        raise _PadUnknown(ex.show(e))
+                except _PadUnknown:
+                    env.pop(l["n"], None)
+                return
+            if l.get("k") == "idx" and is_buf(l["b"], "u8"):
+                r = ev(e["r"]) if op == "=" else None
+                i = ev(l["i"])
+                store(i, 1, cell(r) if r is not None else "X")
+                return
+            if l.get("k") == "idx" and is_buf(l["b"], "u64"):
+                i = ev(l["i"])
+                is_len = op == "=" and any("sha256.size" in ex.show(x) for x in ex.walk(e["r"]))
+                store(8 * i, 8, "L" if is_len else "X")
+                return
+            if l.get("k") == "idx" and is_buf(l["b"], "u32"):
+                if not out:
+                    store(4 * ev(l["i"]), 4, "X")
+                return
+            if "sha256.size" in ex.show(l) or "sha256.state" in ex.show(l):
+                return
+            raise _PadUnknown("store to `%s`" % ex.show(l))
+        if k == "call":
+            fn = e.get("fn")
+            if fn == "process":
+                out.append("".join(buf))
+                return
+            if fn in ("memset", "__builtin_memset", "__builtin___memset_chk"):
+                o = bufptr(e["args"][0])
+                if o is None:
+                    raise _PadUnknown(ex.show(e))
+                store(o, ev(e["args"][2]), cell(ev(e["args"][1])))
+                return
+            if fn in ("__builtin_bswap64", "__builtin_bswap32", "bswap64", "bswap32", "conv64be", "conv32be"):
+                return
+            raise _PadUnknown("call of %s()" % fn)
+        if k == "un":
+            ev(e)
+            return
+        if k in ("bin", "ret", "const", "var", "mem", "idx", "cast", "paren", "cond"):
+            return
+        raise _PadUnknown("statement `%s`" % ex.show(e))
+
+    refd = set()
+    for b in fin.blocks.values():
+        for e in b.elems:
+            for x in ex.walk(e, into_refs=False):
+                if x.get("k") == "eref" and x is not e:
+                    refd.add((x.get("b"), x.get("i")))
+    cur = fin.entry
+    steps = 0
+    while True:
+        steps += 1
+        if steps > 2000:
+            raise _PadUnknown("evaluation does not terminate for length = %d (mod 64)" % p0)
+        b = fin.blocks[cur]
+        for i, e in enumerate(b.elems):
+            if (cur, i) in refd:
+                continue
+            if i == len(b.elems) - 1 and len(b.succs) == 2 and b.term is not None and "cond" in b.term:
+                continue
+            do(e)
+        if not b.succs:
+            break
+        if len(b.succs) == 1:
+            cur = b.succs[0]
+            continue
+        if b.term is None or "cond" not in b.term or len(b.succs) != 2:
+            raise _PadUnknown("branch in block %d" % cur)
+        cur = b.succs[0] if ev(b.term["cond"]) else b.succs[1]
+    return out
+
+
 def check_sha(ck, prog):
     ck.rule("C14-SHA", "Sigma/sigma expansions as linear maps, Ch/Maj truth tables, schedule indices, round structure")
     f = prog.fn("transform", "sha256.c")
@@ -337,6 +545,36 @@ def check_sha(ck, prog):
           "lzma_sha256_finish(): for message length = %s (mod 64) the number of padding blocks differs from FIPS 180-4 "
           "(a second block is needed iff length mod 64 >= 56): the digest is not SHA-256 for those lengths" % wrong[:6],
           key="SHA:padding-blocks")
+    # padding content: concrete evaluation of lzma_sha256_finish for each of the 64 residues with an abstract buffer
+    # (D = message byte, S = stale byte from an earlier block, P = 0x80, Z = 0x00, L = length field): every block handed
+    # to process() must be D* P Z* [L^8] as FIPS 180-4 section 5.1.1 describes it
+    badpad = []
+    for p0 in range(64):
+        try:
+            blocks = _sha_finish_blocks(fin, p0)
+        except _PadUnknown as e_:
+            raise AnalysisBroken("lzma_sha256_finish: padding code not understood (%s)" % e_)
+        except _PadOOB as e_:
+            badpad.append((p0, str(e_)))
+            continue
+        if p0 < 56:
+            want = ["D" * p0 + "P" + "Z" * (55 - p0) + "L" * 8]
+        else:
+            want = ["D" * p0 + "P" + "Z" * (63 - p0), "Z" * 56 + "L" * 8]
+        if blocks != want:
+            what = "%d block(s) instead of %d" % (len(blocks), len(want))
+            for bi, (g_, w_) in enumerate(zip(blocks, want)):
+                d_ = [j for j in range(64) if g_[j] != w_[j]]
+                if d_:
+                    what = "byte %d of padding block %d is %s, FIPS 180-4 needs %s" % (
+                        d_[0], bi + 1, _PADNAME.get(g_[d_[0]], g_[d_[0]]), _PADNAME.get(w_[d_[0]], w_[d_[0]]))
+                    break
+            badpad.append((p0, what))
+    ck.ob("C14-SHA", "padding-content", not badpad, common.where(fin),
+          "lzma_sha256_finish: for all 64 residues of the message length, each block handed to process() is the message "
+          "tail, 0x80, zeros and (in the last block) the 64-bit length" if not badpad else
+          "lzma_sha256_finish(): for message length = %d (mod 64) %s (%d residues affected): the digest is not SHA-256 "
+          "for those lengths" % (badpad[0][0], badpad[0][1], len(badpad)), key="SHA:padding-content")
     ck.ob("C14-SHA", "length-field", okf and mul8, common.where(fin),
           "message length is converted to bits and stored big-endian in the last 8 bytes", key="SHA:length")
     # the message length counter is 64 bits wide (FIPS 180-4: length < 2^64 bits; a 32-bit byte counter wraps at 4 GiB,
@@ -493,6 +731,46 @@ def _is64(prog, f, n):
     return False
 
 
+def check_state_width(ck, prog, rule="C14-STATEW"):
+    """lzma_crc64_generic(): the 64-bit CRC state is updated as `crc = table[..][byte ^ low(crc)] ^ (crc >> 8)` (and
+    `S32(crc)` in the four-byte loop).  The shifted remainder has to keep all 64 bits: a cast of `crc` to a 32-bit type anywhere
+    in the new value outside a table index drops the upper half of the state."""
+    ck.rule(rule, "lzma_crc64_generic: no narrowing cast of the 64-bit state in the value assigned back to it (table indices excepted)")
+    f = prog.fn("lzma_crc64_generic", "crc64_fast.c", required=False)
+    if f is None:
+        raise AnalysisBroken("lzma_crc64_generic vanished")
+    ck.saw_function(f)
+    NARROW = ("uint32_t", "uint16_t", "uint8_t", "unsigned int", "int", "unsigned char", "unsigned short", "int32_t")
+    n, bad = 0, None
+
+    def scan(x, in_index):
+        nonlocal bad
+        x = ex.deref(x)
+        if not isinstance(x, dict):
+            return
+        if x.get("k") == "idx":
+            scan(x["b"], in_index)
+            scan(x["i"], True)
+            return
+        if x.get("k") == "cast" and not in_index and (x.get("ty") or "").replace("const ", "") in NARROW and any(
+                y.get("k") == "var" and y.get("n") == "crc" for y in ex.walk(x["e"])):
+            bad = bad or x
+        for c in ex.children(x):
+            scan(c, in_index)
+    for b, i, e in f.iter_elems():
+        for (l, r, op, node) in ex.writes(e):
+            if ex.show(l) == "crc" and r is not None and op == "=" and any(
+                    y.get("k") == "var" and y.get("n") == "crc" for y in ex.walk(r)):
+                n += 1
+                scan(r, False)
+    if n < 3:
+        raise AnalysisBroken("lzma_crc64_generic: only %d state updates found" % n)
+    ck.ob(rule, "lzma_crc64_generic", bad is None, common.where(f, bad),
+          "lzma_crc64_generic: %d state updates keep the shifted remainder in 64 bits" % n if bad is None else
+          "lzma_crc64_generic(): the new state contains `%s`%s: the upper 32 bits of the CRC64 state are dropped, so the result is "
+          "not CRC-64/XZ" % ("(%s)%s" % (bad.get("ty"), ex.show(bad)), (" (macro %s)" % bad.get("m")) if bad.get("m") else ""), key="STATEW:lzma_crc64_generic")
+
+
 def check_maskw(ck, prog):
     """`size & ~63U`: the complement is computed in 32 bits and zero-extended, so it also clears bits 32..63 of a 64-bit
     size.  A check function then silently skips multiples of 4 GiB of its input."""
@@ -589,5 +867,6 @@ def run(ck):
     check_sha(ck, prog)
     check_disp(ck, prog)
     check_maskw(ck, prog)
+    check_state_width(ck, prog)
     check_datapath(ck, prog)
     check_checkflow(ck, common.program(ck, ("liblzma",)))
